@@ -695,7 +695,7 @@ func (w *W) plainSpec(f *frame, p *Ptr, write bool, pos token.Pos, eff func(exec
 		norace := f.harness || a.l.obj.ghost
 		if w.access != nil {
 			spec.accCells = append(spec.accCells, ck)
-			spec.accNames = append(spec.accNames, a.l.obj.name+a.l.path)
+			spec.accNames = append(spec.accNames, cellLabel(a.l))
 			spec.accOwn = append(spec.accOwn, a.l.obj.owner == f.t.id && !a.l.obj.published)
 			spec.accNoRace = append(spec.accNoRace, norace)
 		}
@@ -703,7 +703,7 @@ func (w *W) plainSpec(f *frame, p *Ptr, write bool, pos token.Pos, eff func(exec
 			spec.yield = true
 			spec.cells = append(spec.cells, ck)
 			spec.cellG = append(spec.cellG, a.g)
-			spec.cellLabel = append(spec.cellLabel, a.l.obj.name+a.l.path)
+			spec.cellLabel = append(spec.cellLabel, cellLabel(a.l))
 		}
 	}
 	if spec.yield {
@@ -715,7 +715,9 @@ func (w *W) plainSpec(f *frame, p *Ptr, write bool, pos token.Pos, eff func(exec
 // frozenPtr: every target cell is known (from pass 1) never to be written while other goroutines exist,
 // except by its allocating goroutine before publication.
 func (w *W) frozenPtr(p *Ptr, t types.Type) bool {
-	if w.frozen == nil {
+	if w.frozen == nil || w.curThread == nil || !w.othersExist(w.curThread) {
+		// while a goroutine is alone (prologue) its loads are ordinary steps: they are constant-folded anyway,
+		// and a later write by the same goroutine must not be visible to them
 		return false
 	}
 	for _, a := range p.alts {
@@ -1134,4 +1136,50 @@ func diagLeaves(t *Term) string {
 		}
 	}
 	return s
+}
+
+// cellLabel names a memory cell by the type and field it belongs to (e.g. "Response.res", "Node.next"),
+// falling back to the allocation site.
+func cellLabel(l *Loc) string {
+	t := l.obj.typ
+	path := l.path
+	var parts []string
+	tn := ""
+	for path != "" && t != nil {
+		if n, ok := types.Unalias(t).(*types.Named); ok {
+			tn = n.Obj().Name()
+			parts = nil
+		}
+		if path[0] == '.' {
+			j := 1
+			for j < len(path) && path[j] >= '0' && path[j] <= '9' {
+				j++
+			}
+			var idx int
+			fmt.Sscanf(path[1:j], "%d", &idx)
+			st, ok := t.Underlying().(*types.Struct)
+			if !ok || idx >= st.NumFields() {
+				return l.obj.name + l.path
+			}
+			parts = append(parts, st.Field(idx).Name())
+			t = st.Field(idx).Type()
+			path = path[j:]
+		} else if path[0] == '[' {
+			j := strings.Index(path, "]")
+			switch u := t.Underlying().(type) {
+			case *types.Array:
+				t = u.Elem()
+			default:
+				// element of a slice-backed array object: the object's type is the element type
+			}
+			parts = append(parts, "[]")
+			path = path[j+1:]
+		} else {
+			break
+		}
+	}
+	if tn == "" {
+		return l.obj.name + l.path
+	}
+	return tn + "." + strings.Join(parts, ".")
 }
